@@ -526,6 +526,10 @@ def _merge_justified(ctx, F, b, R, bb, args, lits, rule, site, span):
                 x = x[1]
             if x[0] == 'bin' and x[1] in ('Add', 'AddWithOverflow') and x[2][0] == 'var' and x[3][0] == 'var' and c_ == ('const', 'K'):
                 total = (x[2], x[3])
+            elif x[0] == 'bin' and x[1] in ('Add', 'AddWithOverflow') and c_ == ('const', 'K') and \
+                    any(y[0] == 'var' for y in (x[2], x[3])) and any(is_call(y, 'Vec::len') for y in (x[2], x[3])):
+                # the number of rejected children read off the queue that collects them (`created + pruned.len() == K`)
+                total = (x[2], x[3])
     if created is not None or total is not None:
         if created is None or total is None or created not in total:
             ctx.bad(rule, site, 'a grafted decision is skipped without requiring created == 1 and created + skipped == K', span)
@@ -533,6 +537,25 @@ def _merge_justified(ctx, F, b, R, bb, args, lits, rule, site, span):
         skipped = total[1] if total[0] == created else total[0]
         ok = True
         for var, want in ((created, 'true'), (skipped, 'false')):
+            if is_call(var, 'Vec::len'):
+                # a queue length used as the counter: every push is an increment, and the length is read before anything is taken out again
+                V = var[2][0]
+                cfg_ = b.cfg()
+                pushes = [pb for pb, pt in b.calls_to('Vec::push') if s(R.call_args(pb)[0]) == s(V)]
+                news = [nb for nb, nt in b.calls() if Callee(nt['func']).name in ('new', 'with_capacity') and s(R.call_expr(nt, nb)) == s(V)]
+                takes = [tb for tb, tt in b.calls() if Callee(tt['func']).name in ('pop', 'remove', 'swap_remove', 'truncate', 'clear', 'drain', 'retain', 'split_off')
+                         and R.call_args(tb) and s(R.call_args(tb)[0]) == s(V)]
+                if not pushes:
+                    ok = False
+                for pb in pushes:
+                    if not any(x[0] == want and is_call(x[1], 'CompositionSchema::explore') for x in literals(b, R, pb)):
+                        ctx.bad(rule, site, 'an entry is queued on %s outside the %s outcome of C::explore' % (fmt(V)[:40], want), b.where(pb))
+                        ok = False
+                len_bb = var[3] if len(var) > 3 else None
+                if len_bb is None or any(cfg_.reaches(tb, len_bb, avoid=news) for tb in takes):
+                    ctx.bad(rule, site, 'the queue length used as the number of rejected children can be read after an entry was taken out', span)
+                    ok = False
+                continue
             incs = _counter_increments(b, R, var)
             if not incs:
                 ok = False
